@@ -81,6 +81,89 @@ theorem readOct_octField (w n : Nat) (hw : 1 < w) (hn : n < 8 ^ (w - 1)) : readO
   unfold octField
   exact readOct_octFixed (w - 1) n (by omega) hn 0 [] (Or.inl rfl)
 
+/-! ### binary (base-256) numbers of GNU headers -/
+
+theorem beFixed_length (k n : Nat) : (beFixed k n).length = k := by
+  induction k generalizing n with
+  | zero => rfl
+  | succ k ih => simp [beFixed, ih]
+
+theorem beVal_snoc (l : Bytes) (c : UInt8) : beVal (l ++ [c]) = beVal l * 256 + c.toNat := by
+  simp [beVal, List.foldl_append]
+
+theorem beVal_beFixed (k n : Nat) : beVal (beFixed k n) = n % 256 ^ k := by
+  induction k generalizing n with
+  | zero => simp [beFixed, beVal, Nat.mod_one]
+  | succ k ih =>
+    simp only [beFixed]
+    have hb : (n % 256).toUInt8.toNat = n % 256 := by
+      simp only [Nat.toUInt8, UInt8.toNat_ofNat']
+      omega
+    rw [beVal_snoc, ih, hb, Nat.pow_succ, Nat.mul_comm (256 ^ k) 256, Nat.mod_mul]
+    omega
+
+theorem beVal_zero_cons (l : Bytes) : beVal (0 :: l) = beVal l := by
+  simp [beVal]
+
+theorem binField_length (w n : Nat) (hw : 0 < w) : (binField w n).length = w := by
+  simp [binField, beFixed_length]; omega
+
+theorem numField_length (fl : Flavor) (w n : Nat) (hw : 0 < w) : (numField fl w n).length = w := by
+  unfold numField; split
+  · exact binField_length w n hw
+  · exact octField_length w n hw
+
+theorem odigit_and (d : Nat) (h : d < 8) : (48 + d).toUInt8 &&& 128 = 0 := by
+  have : d = 0 ∨ d = 1 ∨ d = 2 ∨ d = 3 ∨ d = 4 ∨ d = 5 ∨ d = 6 ∨ d = 7 := by omega
+  rcases this with rfl | rfl | rfl | rfl | rfl | rfl | rfl | rfl <;> decide
+
+theorem octFixed_head (k n : Nat) : ∃ d, d < 8 ∧ ∃ rest, octFixed (k + 1) n = (48 + d).toUInt8 :: rest := by
+  induction k generalizing n with
+  | zero => exact ⟨n % 8, Nat.mod_lt _ (by decide), [], by simp [octFixed]⟩
+  | succ k ih =>
+    obtain ⟨d, hd, rest, hr⟩ := ih (n / 8)
+    refine ⟨d, hd, rest ++ [(48 + n % 8).toUInt8], ?_⟩
+    rw [octFixed, hr]; rfl
+
+/-- what a numeric field can hold: seven (eleven) octal digits, or in a GNU header seven (eleven) bytes -/
+def numBound (fl : Flavor) (w : Nat) : Nat := if fl = .gnu then 256 ^ (w - 1) else 8 ^ (w - 1)
+
+/-- **numeric field round trip**, octal and binary -/
+theorem readNum_numField (fl : Flavor) (w n : Nat) (hw : 1 < w) (hn : n < numBound fl w) :
+    readNum (numField fl w n) = some n := by
+  unfold numField
+  by_cases hc : fl = .gnu ∧ 8 ^ (w - 1) ≤ n
+  · rw [if_pos hc]
+    have hb : n < 256 ^ (w - 1) := by simpa [numBound, hc.1] using hn
+    have h0 : n / 256 ^ (w - 1) = 0 := Nat.div_eq_of_lt hb
+    unfold binField
+    rw [h0]
+    show readNum (((0 % 256 : Nat).toUInt8 ||| 128) :: beFixed (w - 1) n) = some n
+    have h128 : ((0 % 256 : Nat).toUInt8 ||| 128) = 128 := by decide
+    rw [h128]
+    unfold readNum
+    simp only []
+    rw [if_pos (by decide), if_neg (by decide)]
+    have : (128 : UInt8) &&& 127 = 0 := by decide
+    rw [this, beVal_zero_cons, beVal_beFixed, Nat.mod_eq_of_lt hb]
+  · rw [if_neg hc]
+    have ho : n < 8 ^ (w - 1) := by
+      unfold numBound at hn
+      by_cases hg : fl = .gnu
+      · have : ¬ 8 ^ (w - 1) ≤ n := fun h => hc ⟨hg, h⟩
+        omega
+      · simpa [hg] using hn
+    have hro := readOct_octField w n hw ho
+    obtain ⟨d, hd, rest, hr⟩ := octFixed_head (w - 2) n
+    have hw2 : w - 2 + 1 = w - 1 := by omega
+    rw [hw2] at hr
+    have hf : octField w n = (48 + d).toUInt8 :: (rest ++ [0]) := by unfold octField; rw [hr]; rfl
+    rw [hf] at hro ⊢
+    unfold readNum
+    simp only []
+    rw [if_neg (by rw [odigit_and d hd]; simp)]
+    exact hro
+
 /-! ### strings -/
 
 theorem strField_length (w : Nat) (s : Bytes) : (strField w s).length = w := by
@@ -137,16 +220,16 @@ theorem chkField_length (h : Hdr) : (chkField h).length = 8 := by
 theorem header_layout (h : Hdr) (chk : Bytes) (hc : chk.length = 8) :
     let b := (fields h chk).flatten
     b.length = 512
-    ∧ slice b 0 100 = strField 100 h.name ∧ slice b 100 8 = octField 8 h.mode ∧ slice b 108 8 = octField 8 h.uid
-    ∧ slice b 116 8 = octField 8 h.gid ∧ slice b 124 12 = octField 12 h.size ∧ slice b 136 12 = octField 12 h.mtime
+    ∧ slice b 0 100 = strField 100 h.name ∧ slice b 100 8 = numField h.flavor 8 h.mode ∧ slice b 108 8 = numField h.flavor 8 h.uid
+    ∧ slice b 116 8 = numField h.flavor 8 h.gid ∧ slice b 124 12 = numField h.flavor 12 h.size ∧ slice b 136 12 = numField h.flavor 12 h.mtime
     ∧ slice b 148 8 = chk ∧ slice b 156 1 = [h.typeflag] ∧ slice b 157 100 = strField 100 h.linkname
     ∧ slice b 257 6 = h.flavor.magic ∧ slice b 265 32 = strField 32 h.uname ∧ slice b 297 32 = strField 32 h.gname
     ∧ slice b 329 8 = devField h := by
   intro b
   have D : (devField h).length = 8 := by unfold devField; cases h.dev <;> simp [octField_length]
   have L : ∀ w s, (strField w s).length = w := strField_length
-  have O8 : ∀ n, (octField 8 n).length = 8 := fun n => octField_length 8 n (by decide)
-  have O12 : ∀ n, (octField 12 n).length = 12 := fun n => octField_length 12 n (by decide)
+  have O8 : ∀ n, (numField h.flavor 8 n).length = 8 := fun n => numField_length _ 8 n (by decide)
+  have O12 : ∀ n, (numField h.flavor 12 n).length = 12 := fun n => numField_length _ 12 n (by decide)
   have M : h.flavor.magic.length = 6 := by cases h.flavor <;> rfl
   have V : h.flavor.version.length = 2 := by cases h.flavor <;> rfl
   refine ⟨?_, ?_, ?_, ?_, ?_, ?_, ?_, ?_, ?_, ?_, ?_, ?_, ?_, ?_⟩
@@ -171,15 +254,15 @@ theorem blank_block (h : Hdr) (chk : Bytes) (hc : chk.length = 8) :
     b.take 148 ++ List.replicate 8 32 ++ b.drop 156 = (fields h (List.replicate 8 32)).flatten := by
   intro b
   have L : ∀ w s, (strField w s).length = w := strField_length
-  have O8 : ∀ n, (octField 8 n).length = 8 := fun n => octField_length 8 n (by decide)
-  have O12 : ∀ n, (octField 12 n).length = 12 := fun n => octField_length 12 n (by decide)
+  have O8 : ∀ n, (numField h.flavor 8 n).length = 8 := fun n => numField_length _ 8 n (by decide)
+  have O12 : ∀ n, (numField h.flavor 12 n).length = 12 := fun n => numField_length _ 12 n (by decide)
   have hsplit : ∀ c : Bytes, (fields h c).flatten
-      = (strField 100 h.name ++ octField 8 h.mode ++ octField 8 h.uid ++ octField 8 h.gid ++ octField 12 h.size ++ octField 12 h.mtime)
+      = (strField 100 h.name ++ numField h.flavor 8 h.mode ++ numField h.flavor 8 h.uid ++ numField h.flavor 8 h.gid ++ numField h.flavor 12 h.size ++ numField h.flavor 12 h.mtime)
         ++ (c ++ ([h.typeflag] ++ strField 100 h.linkname ++ h.flavor.magic ++ h.flavor.version ++ strField 32 h.uname ++ strField 32 h.gname
             ++ devField h ++ devField h ++ zeros 167)) := by
     intro c; simp [fields, List.append_assoc]
-  have hA : (strField 100 h.name ++ octField 8 h.mode ++ octField 8 h.uid ++ octField 8 h.gid ++ octField 12 h.size
-      ++ octField 12 h.mtime).length = 148 := by simp [L, O8, O12]
+  have hA : (strField 100 h.name ++ numField h.flavor 8 h.mode ++ numField h.flavor 8 h.uid ++ numField h.flavor 8 h.gid ++ numField h.flavor 12 h.size
+      ++ numField h.flavor 12 h.mtime).length = 148 := by simp [L, O8, O12]
   show (fields h chk).flatten.take 148 ++ List.replicate 8 32 ++ (fields h chk).flatten.drop 156 = _
   rw [hsplit chk, hsplit (List.replicate 8 32), List.take_left' hA]
   rw [show (156 : Nat) = 148 + 8 from rfl, ← List.drop_drop, List.drop_left' hA, List.drop_left' hc]
@@ -200,11 +283,11 @@ structure HdrOK (h : Hdr) : Prop where
   unameNul : (0 : UInt8) ∉ h.uname
   gnameLen : h.gname.length ≤ 32
   gnameNul : (0 : UInt8) ∉ h.gname
-  mode : h.mode < 8 ^ 7
-  uid : h.uid < 8 ^ 7
-  gid : h.gid < 8 ^ 7
-  size : h.size < 8 ^ 11
-  mtime : h.mtime < 8 ^ 11
+  mode : h.mode < numBound h.flavor 8
+  uid : h.uid < numBound h.flavor 8
+  gid : h.gid < numBound h.flavor 8
+  size : h.size < numBound h.flavor 12
+  mtime : h.mtime < numBound h.flavor 12
 
 theorem headerBlock_length (h : Hdr) : (headerBlock h).length = 512 :=
   (header_layout h (chkField h) (chkField_length h)).1
@@ -231,9 +314,9 @@ theorem readHeader_headerBlock (h : Hdr) (ok : HdrOK h) : readHeader (headerBloc
   have hchk : readOct (chkField h) = some (checksumOf h) := by
     unfold chkField
     exact readOct_octFixed 6 _ (by decide) (checksumOf_lt h) 0 [32] (Or.inl rfl)
-  rw [hchk, readOct_octField 8 _ (by decide) ok.mode, readOct_octField 8 _ (by decide) ok.uid,
-    readOct_octField 8 _ (by decide) ok.gid, readOct_octField 12 _ (by decide) ok.size,
-    readOct_octField 12 _ (by decide) ok.mtime]
+  rw [hchk, readNum_numField _ 8 _ (by decide) ok.mode, readNum_numField _ 8 _ (by decide) ok.uid,
+    readNum_numField _ 8 _ (by decide) ok.gid, readNum_numField _ 12 _ (by decide) ok.size,
+    readNum_numField _ 12 _ (by decide) ok.mtime]
   simp only [checksumOf, ne_eq, not_true_eq_false, if_false]
   rw [readStr_strField 100 _ ok.nameLen ok.nameNul, readStr_strField 100 _ ok.linkLen ok.linkNul,
     readStr_strField 32 _ ok.unameLen ok.unameNul, readStr_strField 32 _ ok.gnameLen ok.gnameNul]
